@@ -135,4 +135,21 @@ def check_involution(ctx: Ctx, prefixes):
                             ctx.fail("SB-INVOLUTION", fi, role, f"`{norm(t)[:60]}` decides that two entries cancel, and {d.qualname}.__eq__ (line {d.methods['__eq__'].node.lineno}) makes gate objects compare by value: two separate {', '.join(sorted(bad)[:6])} gates on the same wires compare equal and are removed although applying such a gate twice is not the identity", n)
                         else:
                             ctx.ok("SB-INVOLUTION", fi, role, f"`{norm(t)[:60]}`: no gate class defines __eq__, entries are equal only when they hold the same gate object", n)
+    # commutation decided from "the last wire is the target": true for X-type controlled gates and single-qubit
+    # gates, false for Swap, which writes BOTH its wires - a gate whose control a Swap moves does not commute with it
+    for fi in repo.functions.values():
+        if fi.module is None or not any(fi.short.startswith(p) for p in prefixes):
+            continue
+        for b in ast.walk(fi.node):
+            if not (isinstance(b, ast.BoolOp) and isinstance(b.op, ast.And)):
+                continue
+            pairs = []
+            for v in b.values:
+                if isinstance(v, ast.Compare) and len(v.ops) == 1 and isinstance(v.ops[0], ast.NotIn) and isinstance(v.left, ast.Subscript) and isinstance(v.left.value, ast.Name) and q.is_last_index(v.left) and isinstance(v.comparators[0], ast.Name):
+                    pairs.append((v.left.value.id, v.comparators[0].id))
+            if any((y, x) in pairs for x, y in pairs if x != y):
+                sites += 1
+                role = "gates are exchanged only when neither writes a wire the other uses"
+                swap_aware = any(isinstance(x, ast.Attribute) and x.attr == "Swap" for x in ast.walk(fi.node)) or "n_qubits" in norm(fi.node)
+                ctx.check(swap_aware, "SB-INVOLUTION", fi, role, "", f"`{norm(b)[:80]}` takes the LAST wire of each gate as the only qubit it writes: a Swap writes both its wires, so a gate controlled by a qubit that a Swap moves is treated as commuting with that Swap (CX(0,2); SWAP(0,1); CX(0,2) would cancel the two CX)", b)
     ctx.ok("SB-INVOLUTION", None, "pair-cancelling peepholes scanned", f"{scanned} functions under {'/'.join(prefixes)}, {sites} class-guarded drops", construct="/".join(prefixes))
